@@ -190,6 +190,17 @@ def judge(case) -> Outcome:
             out.fail("c05.path_raised", f"{tag}: path {name}: {type(e).__name__}: {str(e)[:200]}")
             continue
         parts = flat(res)
+        # the container is the one asked for (an override that is silently ignored leaves the numbers alone, not the type)
+        want = name.rsplit("/", 1)[-1]
+        import scipy.sparse as _sp
+
+        def kind_of(p_):
+            o_ = getattr(p_, "__wrapped__", p_)
+            return "sparse" if _sp.issparse(o_) else "pandas" if isinstance(o_, pd.DataFrame) else "numpy" if isinstance(o_, np.ndarray) else type(o_).__name__
+
+        if want in ("pandas", "numpy", "sparse") and parts and any(kind_of(p_) != want for p_ in parts):
+            out.fail("c05.output_type", f"{tag}: path {name}: asked for {want} output, got {sorted({kind_of(p_) for p_ in parts})}")
+            continue
         if len(parts) != len(refs):
             out.fail("c05.structure", f"{tag}: path {name}: {len(parts)} parts vs {len(refs)}")
             continue
